@@ -73,6 +73,19 @@ class AsymmetricStepSolver(ScaledStepSolver):
             assert (0 <= curr_cols).all()
             assert (curr_cols < n + m).all()
 
+    def replace_active_rows(self, matrix):
+        # Rows of active variables become identity rows. Does not rely on
+        # a stored diagonal entry (sums of sparse matrices drop entries
+        # which cancel to zero, e.g. a Hessian diagonal of -lamb).
+        dtype = self.params.dtype
+        active = np.zeros((self.n + self.m,), dtype=dtype)
+        active[: self.n] = self.active_set
+
+        keep_mat = sp.sparse.diags([1.0 - active], [0], dtype=dtype)
+        active_mat = sp.sparse.diags([active], [0], dtype=dtype)
+
+        return (keep_mat @ matrix + active_mat).tocsr()
+
     def compute_deriv(self, active_set: np.ndarray) -> sp.sparse.spmatrix:
         lamb = 1.0 / self.dt
         rho = self.rho
@@ -97,7 +110,7 @@ class AsymmetricStepSolver(ScaledStepSolver):
             format="csr",
         )
 
-        self.overwrite_active_rows(deriv)
+        deriv = self.replace_active_rows(deriv)
 
         assert deriv.dtype == self.params.dtype
 
